@@ -132,14 +132,14 @@ static int get_ea_68000(
     case 7:
       if (reg == 0)
       {
-        int16_t value = READ_RAM16(address + 2 + skip);
-        if (value > 0) { snprintf(ea, length, "(0x%x)", value); }
-        else { snprintf(ea, length, "(0x%x)", ((uint32_t)value) & 0xffffff); }
+        // Say which absolute form this is: the assembler picks the short one
+        // for (n) with n <= 0xffff and the long one above.
+        snprintf(ea, length, "(0x%x).w", READ_RAM16(address + 2 + skip) & 0xffff);
         return 4;
       }
       else if (reg == 1)
       {
-        snprintf(ea, length, "(0x%x)", READ_RAM32(address + 2 + skip));
+        snprintf(ea, length, "(0x%x).l", READ_RAM32(address + 2 + skip));
         return 6;
       }
       else if (reg == 2)
